@@ -81,7 +81,7 @@ def check_literals(run, m, tag):
     run.ob(want_ok, "literal-failure|%s|digit" % ev, "%s a failed conversion yields None (-> Err) or the documented fallback, never a panic or a default value" % tag, w, "failure handling: %s" % modes,
            sample={"evaluator": ev, "conversion_failure": modes})
     chars = scan_loop_chars(t)
-    allowed_other = ["i"] if ev == "eval_complex" else []
+    allowed_other = []
     want_dot = ev != "eval_i64"
     run.ob(chars["digit"] and chars["dot"] == want_dot and sorted(set(chars["other"])) == sorted(allowed_other), "literal-chars|%s|digit" % ev,
            "%s a literal continues over ASCII digits%s only (no sign, no exponent letter)" % (tag, " and '.'" if want_dot else ""), w, str(chars))
